@@ -186,6 +186,51 @@ CHECKS["C17"] = dict(
     technique="Lean 4 theorems over state-keeping error monad + exhaustive fault enumeration on the real classes",
 )
 
+CHECKS["C04"] = dict(
+    category="proof",
+    text=("27 Lean theorems (finite probability as explicit averages over draw outcomes, weights in any field of characteristic 0, all d, m, n): "
+          "marginalisation over independent uniform coordinates; E[PFI contribution] = mean loss under uniform resampling of the feature "
+          "from the storage minus original loss; for a fixed order the expected SAGE contribution at position j is w(first j) - w(first j+1) "
+          "with w the expected loss under the imputer; averaged over the d! orders it is the Shapley value of that game, in permutation "
+          "form AND subset-weight form; same for the product strategy and for BatchSage's original mode (rows from the whole data set). "
+          "Tie: the real code's exact expected update, obtained by enumerating every outcome of every draw it makes (weights = 1/requested "
+          "range), equals an independent brute force of those quantities for d<=3, m<=3, n<=2."),
+    design_ref="DESIGN.md section 6, C04", note=TRUST_H + " Uniformity and independence of np.random.permutation / random.randrange / randint are library contracts.",
+    technique="Lean 4 finite-probability theorems + exhaustive draw enumeration on the real classes",
+)
+CHECKS["C14"] = dict(
+    category="translation_validation",
+    text=("Partial. 38 Lean theorems about an array model of the wrappers (size-one output of ANY shape -> {'output': v}; vector -> {i: v_i}; list "
+          "input -> canonical dicts of the rows in order; equal to one-at-a-time calls for row-wise models; with feature names the row handed "
+          "to the model is exactly those features in that order, independent of the dict's key order; river one-hot over the labels seen so "
+          "far, never dropping one; dispatch table). NumPy/torch/sklearn behaviour is outside the model, so the claim rests on the "
+          "correspondence: real wrappers over output shapes x dtypes x batch sizes x key orders vs the model and vs the canonical form, real "
+          "sklearn/torch/river models, dispatch over sklearn's and river's estimator classes."),
+    design_ref="DESIGN.md section 6, C14", note="Trusted: Lean kernel + standard axioms for the model theorems; NumPy conversion semantics, torch, sklearn, river are exercised, not modelled.",
+    technique="Lean 4 theorems over array model + differential correspondence over shapes/dtypes/batches/key orders",
+)
+CHECKS["C18"] = dict(
+    category="other",
+    text=("Partial. A Lean function is deterministic by construction, so no theorem can exhibit hidden entropy; what is proved is LOCALITY of draws "
+          "for the regenerated reservoir kernels and the joint imputer (a step is a function of state, observation and the draws it consumes; "
+          "positions advance by the draws consumed). The property is decided by record/replay on the real library in float mode: for 16 "
+          "explainer x storage x imputer configurations (incl. TreeStorage/TreeImputer) seeded replays are bit-identical, also after creating "
+          "and using decoy objects, recorded draw logs coincide, under three PYTHONHASHSEED values; static scan of ixai/ for other entropy sources."),
+    design_ref="DESIGN.md section 6, C18", note="Trusted: random.seed/np.random.seed determine the global generators; TreeStorage given an explicit seed; same interpreter configuration within a pair.",
+    technique="record/replay correspondence + Lean 4 locality theorems over regenerated kernels",
+)
+CHECKS["C19"] = dict(
+    category="proof",
+    text=("Partial. 16 Lean theorems about TreeStorage/TreeImputer bookkeeping over an abstract tree oracle, the leaf reservoirs being the regenerated "
+          "GeometricReservoirStorage kernel with p = 1: length = number of updates; every reservoir holds <= L complete previously observed points; the "
+          "newest observation is in the routed leaf's reservoir; no leaf id has two reservoirs; after an update all keys are current leaves under "
+          "the named hypothesis CleanupFires (a counterexample shows it is needed); the imputer changes only requested features and takes each value "
+          "from a point in the routed leaf's reservoir or the fall-back. River's trees are an oracle recorded from the real objects; hypotheses and "
+          "clauses are monitored after every update/imputation."),
+    design_ref="DESIGN.md section 6, C19", note=TRUST_H + " river's Hoeffding trees (learn_one, routing, leaf enumeration) are an oracle: monitored, not proved.",
+    technique="Lean 4 theorems over oracle-parametrised model + recorded-oracle correspondence + monitored hypotheses",
+)
+
 NOT_YET = {
 }
 
